@@ -142,6 +142,10 @@ def xml_sample(draw, names, uris, layered=False):
 JSON_KEYS = NAMES + ["a b", "1", "9lives", "@attr", "#text", "$ref", "a/b", "é中x", "key with spaces", "x" * 70]   # (`__class__` is a recorded finding)
 
 
+def _slug(n):
+    return "".join(c for c in n.lower() if c.isalnum())
+
+
 @st.composite
 def json_sample(draw):
     budget = [draw(st.integers(3, 25))]
@@ -152,10 +156,10 @@ def json_sample(draw):
         if depth >= 4 or budget[0] <= 0 or k <= 3:
             return draw(st.sampled_from([None, True, 0, 1, -5, 1.5, "", "abc", "1", "2001-01-01", "é"]))
         if k <= 6:
-            keys = draw(st.lists(st.sampled_from(JSON_KEYS), min_size=0, max_size=4, unique=True))
+            keys = draw(st.lists(st.sampled_from(JSON_KEYS), min_size=0, max_size=4, unique_by=_slug))     # (case-colliding keys: recorded finding)
             return {key: value(depth + 1) for key in keys}
         return [value(depth + 1) for _ in range(draw(st.integers(0, 3)))]
-    keys = draw(st.lists(st.sampled_from(JSON_KEYS), min_size=1, max_size=4, unique=True))
+    keys = draw(st.lists(st.sampled_from(JSON_KEYS), min_size=1, max_size=4, unique_by=_slug))
     doc = {key: value(1) for key in keys}
     return json.dumps(doc if draw(st.integers(0, 4)) else [doc, doc], ensure_ascii=False)
 
